@@ -7,6 +7,7 @@ untouched.  "Bounded by the inner-edge value" then follows since the program fir
 the zone (the `bcast` calls of Model/Prog2D.penaliseBoundary2D, tied by the trace/numeric correspondence).
 -/
 import SophtVerif.Lemmas.Prog2D
+import SophtVerif.Lemmas.Prog3D
 import SophtVerif.Core.RealTransc
 import Mathlib.Analysis.SpecialFunctions.Trigonometric.Basic
 import Mathlib.Tactic.Ring
@@ -230,5 +231,72 @@ theorem C19_damping_outside_zone_2d (T : Transc K) (w : ℕ) (ny nx : ℤ) (dx x
       exact hb hbc
 
 end Program
+
+/-! ### program level (3D) -/
+
+section Program3
+variable {B K : Type} [DecidableEq B] [Field K] [LinearOrder K] [IsStrictOrderedRing K]
+
+theorem penalise3_regions (T : Transc K) (w : ℕ) (dx c : K) (f g : B) (r : Rect3) :
+    (call_penalise_field_x_front_boundary_stencil_3d_w T w dx c f g r).region = r ∧
+    (call_penalise_field_x_back_boundary_stencil_3d_w T w dx c f g r).region = r ∧
+    (call_penalise_field_y_front_boundary_stencil_3d_w T w dx c f g r).region = r ∧
+    (call_penalise_field_y_back_boundary_stencil_3d_w T w dx c f g r).region = r ∧
+    (call_penalise_field_z_front_boundary_stencil_3d_w T w dx c f g r).region = r ∧
+    (call_penalise_field_z_back_boundary_stencil_3d_w T w dx c f g r).region = r := by
+  rcases w with _ | _ | _ | _ | _ | _ | w <;> exact ⟨rfl, rfl, rfl, rfl, rfl, rfl⟩
+
+theorem penalise3_written (T : Transc K) (w : ℕ) (dx c : K) (f g : B) (r : Rect3) :
+    (call_penalise_field_x_front_boundary_stencil_3d_w T w dx c f g r).written = [f] ∧
+    (call_penalise_field_x_back_boundary_stencil_3d_w T w dx c f g r).written = [f] ∧
+    (call_penalise_field_y_front_boundary_stencil_3d_w T w dx c f g r).written = [f] ∧
+    (call_penalise_field_y_back_boundary_stencil_3d_w T w dx c f g r).written = [f] ∧
+    (call_penalise_field_z_front_boundary_stencil_3d_w T w dx c f g r).written = [f] ∧
+    (call_penalise_field_z_back_boundary_stencil_3d_w T w dx c f g r).written = [f] := by
+  rcases w with _ | _ | _ | _ | _ | _ | w <;> exact ⟨rfl, rfl, rfl, rfl, rfl, rfl⟩
+
+/-- C19 (damping, 3D PROGRAM, every width): cells farther than `w` from every side keep their value, and no buffer
+other than the field is written -/
+theorem C19_damping_outside_zone_3d (T : Transc K) (w : ℕ) (nz ny nx : ℤ) (dx : K) (c : Corners3 K) (f xg yg zg : B) (s : Store3 B K) :
+    (∀ b i j k, ¬ (i < w ∨ nz - w ≤ i ∨ j < w ∨ ny - w ≤ j ∨ k < w ∨ nx - w ≤ k) →
+      exec3 (penaliseBoundary3D T w nz ny nx dx c f xg yg zg) s b i j k = s b i j k) ∧
+    (∀ b, b ≠ f → exec3 (penaliseBoundary3D T w nz ny nx dx c f xg yg zg) s b = s b) := by
+  refine ⟨?_, ?_⟩
+  · intro b i j k hout
+    apply exec3_outside
+    intro cl hc
+    unfold penaliseBoundary3D at hc
+    split_ifs at hc with hw0
+    · simp at hc
+    · simp only [List.mem_cons, List.mem_nil_iff, or_false] at hc
+      rcases hc with rfl | rfl | rfl | rfl | rfl | rfl | rfl | rfl | rfl | rfl | rfl | rfl <;>
+        simp only [bcast3D, (penalise3_regions T w dx _ f _ _).1, (penalise3_regions T w dx _ f _ _).2.1,
+          (penalise3_regions T w dx _ f _ _).2.2.1, (penalise3_regions T w dx _ f _ _).2.2.2.1,
+          (penalise3_regions T w dx _ f _ _).2.2.2.2.1, (penalise3_regions T w dx _ f _ _).2.2.2.2.2,
+          Rect3.mem, headHi, tailLo] <;> omega
+  · intro b hb
+    apply exec3_other
+    intro hmem
+    simp only [written3, List.mem_flatMap] at hmem
+    obtain ⟨cl, hc, hbc⟩ := hmem
+    unfold penaliseBoundary3D at hc
+    split_ifs at hc with hw0
+    · simp at hc
+    · simp only [List.mem_cons, List.mem_nil_iff, or_false] at hc
+      have hw : cl.written = [f] := by
+        rcases hc with rfl | rfl | rfl | rfl | rfl | rfl | rfl | rfl | rfl | rfl | rfl | rfl <;>
+          first
+            | rfl
+            | exact (penalise3_written T w dx _ f _ _).1
+            | exact (penalise3_written T w dx _ f _ _).2.1
+            | exact (penalise3_written T w dx _ f _ _).2.2.1
+            | exact (penalise3_written T w dx _ f _ _).2.2.2.1
+            | exact (penalise3_written T w dx _ f _ _).2.2.2.2.1
+            | exact (penalise3_written T w dx _ f _ _).2.2.2.2.2
+      rw [hw] at hbc
+      simp at hbc
+      exact hb hbc
+
+end Program3
 
 end Sopht.Props.C19
